@@ -112,13 +112,93 @@ pub fn runs_of(batch: &[Vec<u8>]) -> Value {
     Value::Array(runs.iter().map(|r| json!([r.0, r.1, r.2])).collect())
 }
 
+/// Storage backend / node cache configuration for cores created from now on (C14 matrix)
+#[derive(Clone, Debug, Default)]
+pub struct CoreCfg {
+    /// 0: instrumented VDisk, 1: RandomAccessMemory, 2: RandomAccessDisk
+    pub backend: u8,
+    /// 0: no node cache, 1: default cache, 2: cache of a few nodes
+    pub cache: u8,
+    pub dir: std::path::PathBuf,
+    pub counter: u64,
+}
+thread_local! {
+    pub static CFG: std::cell::RefCell<CoreCfg> = std::cell::RefCell::new(CoreCfg::default());
+}
+
+pub type MemStores = std::sync::Arc<Vec<std::sync::Arc<futures::lock::Mutex<random_access_memory::RandomAccessMemory>>>>;
+
+#[derive(Clone, Debug)]
+pub enum Alt {
+    Mem(MemStores),
+    Disk(std::path::PathBuf),
+}
+
+#[derive(Debug)]
+struct MemHandle(std::sync::Arc<futures::lock::Mutex<random_access_memory::RandomAccessMemory>>);
+
+#[async_trait::async_trait]
+impl random_access_storage::RandomAccess for MemHandle {
+    async fn write(&mut self, offset: u64, data: &[u8]) -> Result<(), random_access_storage::RandomAccessError> {
+        self.0.lock().await.write(offset, data).await
+    }
+    async fn read(&mut self, offset: u64, length: u64) -> Result<Vec<u8>, random_access_storage::RandomAccessError> {
+        self.0.lock().await.read(offset, length).await
+    }
+    async fn del(&mut self, offset: u64, length: u64) -> Result<(), random_access_storage::RandomAccessError> {
+        self.0.lock().await.del(offset, length).await
+    }
+    async fn truncate(&mut self, length: u64) -> Result<(), random_access_storage::RandomAccessError> {
+        self.0.lock().await.truncate(length).await
+    }
+    async fn len(&mut self) -> Result<u64, random_access_storage::RandomAccessError> {
+        self.0.lock().await.len().await
+    }
+    async fn is_empty(&mut self) -> Result<bool, random_access_storage::RandomAccessError> {
+        self.0.lock().await.is_empty().await
+    }
+    async fn sync_all(&mut self) -> Result<(), random_access_storage::RandomAccessError> {
+        Ok(())
+    }
+}
+
+async fn alt_storage(alt: &Alt) -> Result<hypercore::Storage, HypercoreError> {
+    use hypercore::{Storage, StorageTraits, Store};
+    match alt {
+        Alt::Mem(m) => {
+            let m = m.clone();
+            Storage::open(
+                move |store: Store| {
+                    let h = MemHandle(m[crate::vstore::store_id(&store)].clone());
+                    Box::pin(async move { Ok(Box::new(h) as Box<dyn StorageTraits + Send>) })
+                        as std::pin::Pin<Box<dyn std::future::Future<Output = Result<Box<dyn StorageTraits + Send>, random_access_storage::RandomAccessError>> + Send>>
+                },
+                false,
+            )
+            .await
+        }
+        Alt::Disk(dir) => Storage::new_disk(dir, false).await,
+    }
+}
+
 pub struct Core {
     pub id: String,
+    pub alt: Option<Alt>,
+    pub cache: u8,
     pub disk: VDisk,
     pub hc: Option<Hypercore>,
     pub subs: Vec<Receiver<Event>>,
     /// seed for the sample of block reads in projections
     pub sample_seed: u64,
+}
+
+pub fn with_cache(b: HypercoreBuilder, cache: u8) -> HypercoreBuilder {
+    match cache {
+        1 => b.node_cache_options(hypercore::CacheOptionsBuilder::new()),
+        // room for three nodes (one node weighs 76)
+        2 => b.node_cache_options(hypercore::CacheOptionsBuilder::new().max_capacity(3 * 76)),
+        _ => b,
+    }
 }
 
 pub enum OpenResult {
@@ -129,18 +209,40 @@ pub enum OpenResult {
 
 impl Core {
     pub fn create(id: &str, disk: VDisk, kp: PartialKeypair) -> (Core, OpenResult) {
+        let (alt, cache) = CFG.with(|c| {
+            let mut c = c.borrow_mut();
+            c.counter += 1;
+            let alt = match c.backend {
+                1 => Some(Alt::Mem(std::sync::Arc::new(
+                    (0..4).map(|_| std::sync::Arc::new(futures::lock::Mutex::new(random_access_memory::RandomAccessMemory::default()))).collect(),
+                ))),
+                2 => {
+                    let d = c.dir.join(format!("{}-{}", id, c.counter));
+                    std::fs::create_dir_all(&d).unwrap();
+                    Some(Alt::Disk(d))
+                }
+                _ => None,
+            };
+            (alt, c.cache)
+        });
         let mut c = Core {
             id: id.to_string(),
+            alt,
+            cache,
             disk,
             hc: None,
             subs: vec![],
             sample_seed: 1,
         };
         let d = c.disk.clone();
+        let alt = c.alt.clone();
         let r = catch_unwind(AssertUnwindSafe(|| {
             block_on(async {
-                let storage = d.storage().await;
-                HypercoreBuilder::new(storage).key_pair(kp).build().await
+                let storage = match &alt {
+                    Some(a) => alt_storage(a).await?,
+                    None => d.storage().await,
+                };
+                with_cache(HypercoreBuilder::new(storage).key_pair(kp), cache).build().await
             })
         }));
         let res = c.take_open(r);
@@ -150,6 +252,8 @@ impl Core {
     pub fn open(id: &str, disk: VDisk) -> (Core, OpenResult) {
         let mut c = Core {
             id: id.to_string(),
+            alt: None,
+            cache: CFG.with(|c| c.borrow().cache),
             disk,
             hc: None,
             subs: vec![],
@@ -184,13 +288,57 @@ impl Core {
         self.hc = None;
         self.subs.clear();
         let d = self.disk.clone();
+        let alt = self.alt.clone();
+        let cache = self.cache;
         let r = catch_unwind(AssertUnwindSafe(|| {
             block_on(async {
-                let storage = d.storage().await;
-                HypercoreBuilder::new(storage).open(true).build().await
+                let storage = match &alt {
+                    Some(a) => alt_storage(a).await?,
+                    None => d.storage().await,
+                };
+                with_cache(HypercoreBuilder::new(storage).open(true), cache).build().await
             })
         }));
         self.take_open(r)
+    }
+
+    /// Current bytes of the four stores, whatever the backend.
+    pub fn images(&self) -> crate::vstore::Images {
+        match &self.alt {
+            None => self.disk.images(),
+            Some(Alt::Mem(m)) => {
+                let mut out: crate::vstore::Images = Default::default();
+                for (i, s) in m.iter().enumerate() {
+                    out[i] = block_on(async {
+                        use random_access_storage::RandomAccess;
+                        let mut g = s.lock().await;
+                        let len = g.len().await.unwrap();
+                        g.read(0, len).await.unwrap()
+                    });
+                }
+                out
+            }
+            Some(Alt::Disk(dir)) => {
+                let mut out: crate::vstore::Images = Default::default();
+                for (i, name) in crate::vstore::STORES.iter().enumerate() {
+                    out[i] = std::fs::read(dir.join(name)).unwrap_or_default();
+                }
+                out
+            }
+        }
+    }
+
+    /// (length, crc32) of each store, up to zero-filled holes: a hole at the tail (a zero-length
+    /// write beyond the end extends the in-memory backends but not a file on disk) is cut off
+    pub fn image_digest(&self) -> Value {
+        let img = self.images();
+        json!(img
+            .iter()
+            .map(|v| {
+                let n = v.iter().rposition(|b| *b != 0).map(|p| p + 1).unwrap_or(0);
+                json!([n, crc32fast::hash(&v[..n])])
+            })
+            .collect::<Vec<_>>())
     }
 
     pub fn apply_proof(&mut self, proof: &hypercore::Proof) -> Value {
